@@ -673,6 +673,13 @@ func (g *Gen) specCall(env *Env, e *Expr) *Val {
 			return nil
 		}
 		return scalar("Int", sel2(env.heap["Int"], a.S[0], k.S[0]), nil)
+	case "wrow":
+		// wrow(w): the whole output row of writer w (wout(w, k) == wrow(w)[k])
+		a := g.specVal(env, args[0])
+		if a == nil {
+			return nil
+		}
+		return scalar("(Array Int Int)", fmt.Sprintf("(select %s %s)", env.heap["Int"], a.S[0]), nil)
 	case "boxed":
 		// boxed(i, k): k-th cell of the value boxed in interface i
 		a := g.specVal(env, args[0])
